@@ -29,6 +29,7 @@ M2  (a) every exported regrouping scenario (sampled in the quick tier) is put th
         of L partitions for the behaviours PairTree exported (L, memory mode, max_iterations), seeded task orders,
         compared with the list fit: T, sigma within 1e-8."""
 import collections
+import copy
 import os
 import random
 import traceback
@@ -484,6 +485,23 @@ def replay_ivector(ck, em, scn, trees, reported, outcomes):
                              "expected": {a: np.asarray(getattr(ref, a)).tolist() for a in bad},
                              "observed": {a: np.asarray(getattr(got, a)).tolist() for a in bad}})
         return
+    # the statistics container's two additions agree (the tree reduction uses `+`; `+=` is the public in-place form)
+    if n >= 2:
+        from bob.learn.em.ivector import e_step as iv_e_step
+        a, b = iv_e_step(ref, bm.fresh(stats)[:n // 2]), iv_e_step(ref, bm.fresh(stats)[n // 2:])
+        tot = a + b
+        acc = copy.deepcopy(a)
+        acc += b
+        whole = iv_e_step(ref, bm.fresh(stats))
+        fields = ("nij_sigma_wij2", "fnorm_sigma_wij", "snormij", "nij")
+        bad = [f for f in fields if not (rel_err(getattr(acc, f), getattr(tot, f)) <= TOL and rel_err(getattr(tot, f), getattr(whole, f)) <= TOL)]
+        if bad:
+            c = "M2:PairTree:StatsAdditionsAgree"
+            reported[c] += 1
+            if reported[c] <= MAX_REPORTED:
+                ck.violation(c, {"mechanism": "M2", "module": "PairTree", "scenario": scn, "differing": bad,
+                                 "detail": "IVectorStats: a + b, a += b and the E-step of the whole list disagree"})
+            return
     outcomes["ivector:%s:ok" % mode] += 1
     if L % 2 == 1 and L >= 3:
         ck.sample({"mechanism": "M2", "scenario": scn, "max_relative_error": errs, "verdict": "ok"}, limit=6)
